@@ -313,6 +313,14 @@ class Prog:
         self._ds = max(self._ds, new_ds)
         return new_node
 
+    def after_ops(self, ds_node: int) -> None:
+        """a dataset that is defined AFTER the construction steps recorded so far (it depends on their results — a
+        derived dataset as an argument): neither it nor its default implementation node is built up front"""
+        self.node(ds_node)["lazy"] = True
+        dflt = self.ovs[self.ov_of(ds_node) - 1].get("dflt")
+        if dflt is not None:
+            self.node(dflt)["lazy"] = True
+
     def ds_of(self, nid: int) -> int:
         return self.node(nid)["ds"]
 
